@@ -13,9 +13,9 @@ import (
 	"fmt"
 	"os"
 	"path/filepath"
+	"runtime/pprof"
 	"sort"
 	"strings"
-	"sync"
 	"time"
 
 	"golang.org/x/tools/go/packages"
@@ -91,18 +91,14 @@ func load(repo string, overlay map[string][]byte, dirs []string) (*loaded, error
 	return l, nil
 }
 
-func newMachine(l *loaded, opts Options) (*Machine, error) {
-	s, err := NewSolver(opts.TimeoutMs, opts.FallbackMs)
-	if err != nil {
-		return nil, err
-	}
-	m := &Machine{prog: l.prog, opts: opts, solver: s}
+func newMachineWith(l *loaded, opts Options, solver *Solver) *Machine {
+	m := &Machine{prog: l.prog, opts: opts, solver: solver}
 	rt := l.prog.ImportedPackage("runtime")
 	if rt == nil {
-		return nil, fmt.Errorf("runtime package not in program")
+		panic("runtime package not in program")
 	}
 	m.runtimeErrorString = rt.Type("errorString").Object().Type()
-	return m, nil
+	return m
 }
 
 type runOutput struct {
@@ -123,8 +119,9 @@ func main() {
 	vpFile := fs.String("vp", "/verif/vp/vp.go", "vp package source")
 	entries := fs.String("entries", "", "comma-separated dir:Func")
 	out := fs.String("out", "", "result JSON file")
-	jobs := fs.Int("j", 8, "parallel harnesses")
-	timeout := fs.Duration("timeout", 10*time.Minute, "time budget per harness")
+	jobs := fs.Int("j", 16, "number of workers (shared by all harnesses)")
+	workers := fs.Int("w", 0, "alias of -j")
+	timeout := fs.Duration("timeout", 10*time.Minute, "time budget of the whole run")
 	verbose := fs.Bool("v", false, "verbose")
 	trace := fs.Bool("trace", false, "trace instructions")
 	qtimeout := fs.Int("qtimeout", 10000, "per-query solver timeout (ms)")
@@ -133,7 +130,13 @@ func main() {
 	unwind := fs.Int("unwind", 64, "default unwind cap")
 	cross := fs.Int("cross", 0, "cross-check every n-th unsat on the other solvers")
 	known := fs.String("known", "", "known findings JSON")
+	cpuprof := fs.String("cpuprofile", "", "write cpu profile")
 	fs.Parse(os.Args[2:])
+	if *cpuprof != "" {
+		f, _ := os.Create(*cpuprof)
+		pprof.StartCPUProfile(f)
+		defer pprof.StopCPUProfile()
+	}
 
 	t0 := time.Now()
 	ov, err := buildOverlay(*repo, *harness, *vpFile)
@@ -178,10 +181,8 @@ func main() {
 		}
 	}
 
-	results := make([]*Result, len(ents))
-	sem := make(chan struct{}, *jobs)
-	var wg sync.WaitGroup
-	for i, e := range ents {
+	var entriesL []Entry
+	for _, e := range ents {
 		pkg := l.pkgs[e.dir]
 		if pkg == nil {
 			fmt.Fprintln(os.Stderr, "no package", e.dir)
@@ -192,38 +193,35 @@ func main() {
 			fmt.Fprintf(os.Stderr, "no function %s in %s\n", e.fn, e.dir)
 			os.Exit(2)
 		}
-		wg.Add(1)
-		go func(i int, e ent, fn *ssa.Function) {
-			defer wg.Done()
-			sem <- struct{}{}
-			defer func() { <-sem }()
-			opts := defaultOptions()
-			opts.RepoRoot = *repo
-			opts.Verbose = *verbose
-			opts.Trace = *trace
-			opts.TimeoutMs = *qtimeout
-			opts.FallbackMs = *ftimeout
-			opts.MaxPaths = *maxPaths
-			opts.Unwind = *unwind
-			opts.Deadline = time.Now().Add(*timeout)
-			m, err := newMachine(l, opts)
-			if err != nil {
-				fmt.Fprintln(os.Stderr, "machine:", err)
-				os.Exit(2)
+		var mk []KnownFinding
+		for _, k := range kf {
+			if k.Harness == e.fn {
+				mk = append(mk, k)
 			}
-			m.solver.crossEvery = *cross
-			for _, k := range kf {
-				if k.Harness == e.fn {
-					m.known = append(m.known, k)
-				}
-			}
-			defer m.solver.Close()
-			r := m.explore(fn, e.dir+":"+e.fn)
-			r.KnownHits = m.knownHit
-			results[i] = r
-		}(i, e, fn)
+		}
+		entriesL = append(entriesL, Entry{Name: e.dir + ":" + e.fn, Fn: fn, Known: mk})
 	}
-	wg.Wait()
+	opts := defaultOptions()
+	opts.RepoRoot = *repo
+	opts.Verbose = *verbose
+	opts.Trace = *trace
+	opts.TimeoutMs = *qtimeout
+	opts.FallbackMs = *ftimeout
+	opts.MaxPaths = *maxPaths
+	opts.Unwind = *unwind
+	opts.Deadline = time.Now().Add(*timeout)
+	if *verbose {
+		opts.MaxViolations = 1000
+	}
+	nw := *jobs
+	if *workers > 0 {
+		nw = *workers
+	}
+	results, err := exploreAll(l, entriesL, opts, nw, *cross)
+	if err != nil {
+		fmt.Fprintln(os.Stderr, "explore:", err)
+		os.Exit(2)
+	}
 	ro := runOutput{Results: results, LoadS: loadS, WallS: time.Since(t0).Seconds(), Repo: *repo}
 	b, _ := json.MarshalIndent(ro, "", " ")
 	if *out != "" {
